@@ -237,6 +237,43 @@ pub fn eval_val(v: i128) -> Vec<Violation> {
             }
         }
     }
+    // ---- JSON numbers written with a fraction or an exponent. Whether the types accept an integral value in that form is
+    // their choice (they reject it today); but whatever is accepted must be exactly the number the literal denotes: a literal
+    // that is not an integer, or not in range, must be rejected, and an accepted one must not be rounded on the way.
+    if nontrivial(v) || v.abs() < 64 {
+        let sign = if v < 0 { "-" } else { "" };
+        let a = v.unsigned_abs();
+        // (literal, exact value if integral)
+        let forms: [(String, Option<i128>); 7] = [
+            (format!("{sign}{a}.0"), Some(v)),
+            (format!("{sign}{a}.5"), None),
+            (format!("{sign}{a}.25"), None),
+            (format!("{sign}{a}e0"), Some(v)),
+            (format!("{sign}{a}0e-1"), Some(v)),
+            (format!("{sign}{a}5e-1"), None),
+            (format!("{sign}{a}.000000000000000000001"), None),
+        ];
+        for (lit, exact) in forms.iter() {
+            if let Ok(x) = serde_json::from_str::<U53>(lit) {
+                let got = u64::from(x) as i128;
+                match exact {
+                    None => out.push(Violation::new(format!("U53/json-float-form/accepted-non-integer/{bc}"), format!("from_str({lit}) = Ok({got}): the literal is not an integer"))),
+                    Some(e) if !(0..=L).contains(e) => out.push(Violation::new(format!("U53/json-float-form/accepted-out-of-range/{bc}"), format!("from_str({lit}) = Ok({got})"))),
+                    Some(e) if *e != got => out.push(Violation::new(format!("U53/json-float-form/value-changed/{bc}"), format!("from_str({lit}) = Ok({got}), the literal denotes {e}"))),
+                    _ => {}
+                }
+            }
+            if let Ok(x) = serde_json::from_str::<I54>(lit) {
+                let got = i64::from(x) as i128;
+                match exact {
+                    None => out.push(Violation::new(format!("I54/json-float-form/accepted-non-integer/{bc}"), format!("from_str({lit}) = Ok({got}): the literal is not an integer"))),
+                    Some(e) if !(-L..=L).contains(e) => out.push(Violation::new(format!("I54/json-float-form/accepted-out-of-range/{bc}"), format!("from_str({lit}) = Ok({got})"))),
+                    Some(e) if *e != got => out.push(Violation::new(format!("I54/json-float-form/value-changed/{bc}"), format!("from_str({lit}) = Ok({got}), the literal denotes {e}"))),
+                    _ => {}
+                }
+            }
+        }
+    }
     out
 }
 
@@ -348,9 +385,9 @@ pub fn centers() -> Vec<i128> {
 }
 
 pub fn run(run: &Run) {
-    run.set_rule("values: every integer within 2^12 of 0, of each +-2^k (k=0..64), of +-(2^53-1) and of the u64/i64 limits (exhaustive), plus proptest draws stratified by bit length 0..65 and sign, one in 8 snapped to within 64 of the limit, plus pairs (independent and adjacent) for ordering; each value goes through TryFrom<u64/i64>, From/TryFrom narrow types, serde_json literal deserialisation (also for literals outside u64/i64), serialisation round trip, f64 round trip, usize_from_u53_saturated and comparisons. Non-trivial = within 2^12 of the limit or bit length >= 50; distinct by value.");
+    run.set_rule("values: every integer within 2^12 of 0, of each +-2^k (k=0..64), of +-(2^53-1) and of the u64/i64 limits (exhaustive), plus proptest draws stratified by bit length 0..65 and sign, one in 8 snapped to within 64 of the limit, plus pairs (independent and adjacent) for ordering; each value goes through TryFrom<u64/i64>, From/TryFrom narrow types, serde_json literal deserialisation (also for literals outside u64/i64, and for seven fraction / exponent spellings of every boundary value), serialisation round trip, f64 round trip, usize_from_u53_saturated and comparisons. Non-trivial = within 2^12 of the limit or bit length >= 50; distinct by value.");
     run.assume("the safe-integer limit 2^53-1 is a literal of the harness (cross-checked against `node -p Number.MAX_SAFE_INTEGER` when node is present), not the crate's constant");
-    run.assume("float / exponent JSON literals are out of scope (serde_json's integer visitor rejects them by design)");
+    run.assume("JSON numbers with a fraction or exponent: acceptance of integral values in that form is left to the types (they reject them today); demanded is only that nothing non-integral or out of range is accepted and nothing accepted is rounded");
     // cross-check the limit with node
     if let Ok(o) = std::process::Command::new("node").args(["-p", "Number.MAX_SAFE_INTEGER"]).output() {
         let s = String::from_utf8_lossy(&o.stdout).trim().to_string();
